@@ -66,7 +66,11 @@ func (d *Dir) IsDir() bool {
 
 // getNodes return nodes for directory
 func (d *Dir) getNodes() []os.FileInfo {
-	return d.nodes
+	d.mu.RLock()
+	defer d.mu.RUnlock()
+	var nodescopy = make([]os.FileInfo, len(d.nodes))
+	copy(nodescopy, d.nodes)
+	return nodescopy
 }
 
 // getNodes return nodes for directory
